@@ -157,6 +157,45 @@ Theorem self_partner_on_aliasing_dataset : forall st c idx dr h s rest w, store_
 Proof. exact self_partner_alias_l. Qed.
 Print Assumptions self_partner_on_aliasing_dataset.
 
+(* ---------- labels as objects: to_one_hot_vector ALLOCATES (Heap.to_one_hot_vector_h) ---------- *)
+(* the label a request returns for a class-id sample (untouched: the one-hot vector) or for any mixed sample is a FRESH
+   object: its address did not exist before the request -- it is not the dataset's stored label, not a label returned
+   by an earlier request, not a row of any table that outlives the request -- and the heap only grew *)
+Theorem returned_label_is_fresh : forall ds c idx dr h h' a s rest,
+  getitem_xclass ds c idx dr = Ok (s, rest) ->
+  label_request_h ds c idx dr h = Some (h', a) ->
+  (s_mix s <> None \/ exists y, ds_cls ds idx = LInt y) ->
+  (length h <= a)%nat /\ (a < length h')%nat /\ exists ext, h' = h ++ ext.
+Proof. exact returned_label_is_fresh_l. Qed.
+Print Assumptions returned_label_is_fresh.
+
+(* that object holds the label vector of the value-level model (so label_convex, untouched_is_one_hot, ... speak about it) *)
+Theorem returned_label_object_holds_model_label : forall ds c idx dr h h' a s rest, lstore_wf ds h ->
+  getitem_xclass ds c idx dr = Ok (s, rest) ->
+  label_request_h ds c idx dr h = Some (h', a) ->
+  lderef h' a = s_cls s.
+Proof. exact label_request_value_l. Qed.
+Print Assumptions returned_label_object_holds_model_label.
+
+(* the label statements never write into an object that existed before the request: whatever a consumer does to labels
+   it received earlier (they are its own objects) cannot reach a later request, and a request does not disturb them *)
+Theorem label_request_writes_nothing_existing : forall ds c idx dr h h' a,
+  label_request_h ds c idx dr h = Some (h', a) ->
+  forall b, (b < length h)%nat -> lderef h' b = lderef h b.
+Proof. exact label_request_preserves_l. Qed.
+Print Assumptions label_request_writes_nothing_existing.
+
+(* two requests served one after the other, the first label still alive: the second label is a different object and
+   the first one is what it was *)
+Theorem successive_labels_are_distinct_objects : forall ds c i1 d1 i2 d2 h h1 a1 h2 a2 s2 r2,
+  label_request_h ds c i1 d1 h = Some (h1, a1) -> (a1 < length h1)%nat ->
+  getitem_xclass ds c i2 d2 = Ok (s2, r2) ->
+  label_request_h ds c i2 d2 h1 = Some (h2, a2) ->
+  (s_mix s2 <> None \/ exists y, ds_cls ds i2 = LInt y) ->
+  a1 <> a2 /\ lderef h2 a1 = lderef h1 a1.
+Proof. exact successive_labels_distinct_l. Qed.
+Print Assumptions successive_labels_are_distinct_objects.
+
 (* ---------- non-vacuity: the premises are satisfiable and the interesting branches are reached ---------- *)
 Definition ds_ex : dataset :=
   lit_dataset [([2; 3]%nat, [1; 2; 3; 4; 5; 6]%Q, LInt 0);
@@ -272,3 +311,24 @@ Example unrepaired_inplace_refuted :
   (let '(h', a) := h_mix_inplace h_ex (1 # 4) 0 1 in
    a = 0%nat /\ Forall2 Qeq (flatten (deref h' 0)) [31 # 4; 31 # 2]%Q /\ Forall2 Qeq (flatten (deref h' 1)) [15 # 2; 15]%Q).
 Proof. vm_compute. repeat split; repeat constructor. Qed.
+
+
+(* labels as objects: the stored labels of ds_ex at addresses 0..2 (class ids are not tensors); sample 0 (class id 0)
+   untouched -> a new object at address 3 holding [1;0;0]; mixed with sample 1 -> the new object at address 7 *)
+Definition lh_ex : lheap := [[]; []; [1 # 4; 1 # 4; 1 # 2]%Q].
+Example label_heap_premises_satisfiable : lstore_wf ds_ex lh_ex.
+Proof.
+  intros k v H. destruct k as [|[|[|k]]]; cbn in H; try discriminate.
+  - inversion H. split; [cbn; lia|reflexivity].
+  - destruct k; cbn in H; discriminate.
+Qed.
+Example label_heap_example :
+  label_request_h ds_ex c_ex 0 [DUnit (1 # 3); DInt 3 1; DBeta (4 # 5) (1 # 4)] lh_ex
+    = Some (lh_ex ++ [[1; 0; 0]; [0; 0; 1]; [1 * (1 # 4); 0 * (1 # 4); 0 * (1 # 4)];
+                      [0 * (1 - (1 # 4)); 0 * (1 - (1 # 4)); 1 * (1 - (1 # 4))];
+                      [1 * (1 # 4) + 0 * (1 - (1 # 4)); 0 * (1 # 4) + 0 * (1 - (1 # 4)); 0 * (1 # 4) + 1 * (1 - (1 # 4))]]%Q, 7%nat)
+  /\ option_map snd (label_request_h ds_ex {| total_p := 1 # 2; cutmix_p := 0; mixup_alpha := Some (4 # 5); cutmix_alpha := None;
+                                    unify := UPadOrCutEnd; seed := Some 5; with_ctx := true |} 0 [DUnit (9 # 10)] lh_ex) = Some 3%nat
+  /\ option_map snd (label_request_h ds_ex {| total_p := 1 # 2; cutmix_p := 0; mixup_alpha := Some (4 # 5); cutmix_alpha := None;
+                                    unify := UPadOrCutEnd; seed := Some 5; with_ctx := true |} 2 [DUnit (9 # 10)] lh_ex) = Some 2%nat.
+Proof. split; [|split]; vm_compute; reflexivity. Qed.
